@@ -120,7 +120,8 @@ func bitOff(c int) int64 {
 func init() {
 	for _, c := range strings.Fields("get strlen exists exists2 mget getrange ttl hget hmget hexists hlen hgetall hkeys hvals hkeyexist httl " +
 		"llen lindex lrange lkeyexist lttl scard sismember smembers srandmember skeyexist sttl zcard zscore zrank zrevrank zrange zrevrange " +
-		"zrangebyscore zrevrangebyscore zcount zrangebylex zlexcount zkeyexist zttl getbit bitcount bitcount2 bkeyexist bttl") {
+		"zrangebyscore zrevrangebyscore zcount zrangebylex zlexcount zkeyexist zttl getbit bitcount bitcount2 bkeyexist bttl "+
+		"zrangebyscorel zrevrangebyscorel zrangebylexl") {
 		smReadCmds[c] = true
 	}
 }
@@ -889,6 +890,28 @@ func (d *smDrv) read(c *smCmd) (r []int) {
 			return rErr
 		}
 		return d.rPairs(ps)
+	case "zrangebyscorel", "zrevrangebyscorel":
+		lo, hi := d.scoreBounds(a)
+		mn, mx, err := node.VerifSMParseScoreRange(lo, hi)
+		if e(err) {
+			return rErr
+		}
+		ps, err := st.ZRangeByScoreGeneric(k, mn, mx, a[4], a[5], c.C == "zrevrangebyscorel")
+		if e(err) {
+			return rErr
+		}
+		return d.rPairs(ps)
+	case "zrangebylexl":
+		lo, hi := d.lexBounds(a)
+		mn, mx, rt, err := node.VerifSMParseLexRange(lo, hi)
+		if e(err) {
+			return rErr
+		}
+		ms, err := st.ZRangeByLex(k, mn, mx, rt, a[4], a[5])
+		if e(err) {
+			return rErr
+		}
+		return d.rIds(ms)
 	case "zrangebyscore", "zrevrangebyscore", "zcount":
 		lo, hi := d.scoreBounds(a)
 		mn, mx, err := node.VerifSMParseScoreRange(lo, hi)
@@ -1491,6 +1514,25 @@ func (d *smDrv) bigFill(ty byte, k []byte, from, to int) {
 	}
 }
 
+// bigFillHead puts the elements from..to in FRONT of a list (LPUSH to, to-1, ..., from)
+func (d *smDrv) bigFillHead(k []byte, from, to int) {
+	const chunk = 400
+	for b := to; b >= from; b -= chunk {
+		a := b - chunk + 1
+		if a < from {
+			a = from
+		}
+		args := [][]byte{[]byte("lpush"), k}
+		for i := b; i >= a; i-- {
+			args = append(args, []byte(strconv.Itoa(i)))
+		}
+		r := bigInt(d.bigApply(0, args...))
+		d.emit(trace.M{"ev": "bfill", "ty": "l", "k": 1, "from": a, "to": b, "r": r})
+		d.st8.Cmds++
+		d.st8.Writes++
+	}
+}
+
 func (d *smDrv) bigOp(ty byte, k []byte, op string, a []int, args ...[]byte) {
 	r := bigInt(d.bigApply(1, args...))
 	if op == "ltrim" && r == -1 {
@@ -1645,7 +1687,7 @@ func (d *smDrv) bigRun(n int) {
 	seg('l', func() {
 		d.bigOp('l', k, "ltrim", []int{0, 99}, b("ltrim"), k, it(0), it(99)) // cuts > 5000 off the tail
 		d.bigObs('l', k, n)
-		d.bigFill('l', k, 100, 109)
+		d.bigFill('l', k, 100, n+9) // grow again past the old tail
 		d.bigObs('l', k, n)
 		d.bigOp('l', k, "rpop", nil, b("rpop"), k)
 		d.bigOp('l', k, "lpop", nil, b("lpop"), k)
@@ -1672,13 +1714,43 @@ func (d *smDrv) bigRun(n int) {
 		d.bigOp('l', k, "clear", nil, b("lclear"), k)
 		d.bigObs('l', k, n)
 	})
+	// cuts of 4999 / 5000 / 5001 elements (both sides of RangeDeleteNum) off the tail and off the head, then the
+	// list grows again PAST its old extent on that side (a leftover element shows as a failing push)
+	for _, c := range []int{4999, 5000, 5001} {
+		c := c
+		seg('l', func() {
+			d.bigOp('l', k, "ltrim", []int{0, n - 1 - c}, b("ltrim"), k, it(0), it(n-1-c))
+			d.bigObs('l', k, n)
+			d.bigFill('l', k, n-c, n+4)
+			d.bigObs('l', k, n)
+		})
+		seg('l', func() {
+			d.bigOp('l', k, "ltrim", []int{c, -1}, b("ltrim"), k, it(c), it(-1))
+			d.bigObs('l', k, n)
+			d.bigFillHead(k, -5, c-1)
+			d.bigObs('l', k, n)
+		})
+		seg('z', func() {
+			d.bigOp('z', k, "zremscore", []int{n - c, n + 10}, b("zremrangebyscore"), k, it(n-c), it(n+10))
+			d.bigObs('z', k, n)
+			d.bigFill('z', k, n-c, n+4)
+			d.bigObs('z', k, n)
+		})
+		seg('z', func() {
+			d.bigOp('z', k, "zremlex", []int{0, c - 1}, b("zremrangebylex"), k, append(b("["), bigMember(0)...), append(b("["), bigMember(c-1)...))
+			d.bigObs('z', k, n)
+		})
+	}
 	// hash / set / zset clears and re-creation
 	for _, ty := range []byte("hsz") {
 		ty := ty
 		seg(ty, func() {
 			d.bigOp(ty, k, "clear", nil, b(string([]byte{ty})+"clear"), k)
 			d.bigObs(ty, k, n)
-			d.bigFill(ty, k, 0, 9)
+			d.bigFill(ty, k, n+800, n+809) // elements the old generation did not have: the old ones must stay gone
+			d.bigObs(ty, k, n)
+			d.bigOp(ty, k, "clear", nil, b(string([]byte{ty})+"clear"), k)
+			d.bigFill(ty, k, 0, 9) // elements the first generation had
 			d.bigObs(ty, k, n)
 		})
 	}
@@ -1769,7 +1841,7 @@ var smGenCmds = map[byte][]string{
 	'h': strings.Fields("hset hset hset hsetnx hmset hdel hdel2 hincrby hclear hget hmget hexists hlen hgetall hkeys hvals hkeyexist"),
 	'l': strings.Fields("lpush lpush2 rpush rpush2 lpop rpop lset ltrim lclear llen lindex lrange lkeyexist"),
 	's': strings.Fields("sadd sadd sadd2 sadd2 srem srem2 spop spopn sclear scard sismember smembers srandmember skeyexist"),
-	'z': strings.Fields("zadd zadd zadd2 zadd2 zincrby zrem zrem2 zremrangebyrank zremrangebyscore zremrangebylex zclear zcard zscore zrank zrevrank zrange zrevrange zrangebyscore zrevrangebyscore zcount zrangebylex zlexcount zkeyexist"),
+	'z': strings.Fields("zadd zadd zadd2 zadd2 zincrby zrem zrem2 zremrangebyrank zremrangebyscore zremrangebylex zclear zcard zscore zrank zrevrank zrange zrevrange zrangebyscore zrevrangebyscore zcount zrangebylex zlexcount zkeyexist zrangebyscorel zrevrangebyscorel zrangebylexl zrangebyscorel zrevrangebyscorel"),
 }
 func init() {
 	// no string commands on bitmap keys in the general corpus: the legacy string -> bitmap conversion is
@@ -1917,6 +1989,15 @@ func (g *smGen) next() *smCmd {
 		c.A = []int{[]int{1, 2, -1, 3, 0}[r.Intn(5)], sub()}
 	case "zrangebyscore", "zrevrangebyscore", "zcount", "zremrangebyscore":
 		c.A = g.iv(bounds)
+	case "zrangebyscorel", "zrevrangebyscorel":
+		// LIMIT offset count: every small offset, negative / zero / small / large counts
+		c.A = append(g.iv(bounds), []int{0, 0, 1, 1, 2, 3, -1}[r.Intn(7)], []int{-1, -1, -5, 0, 1, 2, 100}[r.Intn(7)])
+	case "zrangebylexl":
+		ids := []int{}
+		for i := 1; i <= g.ns; i++ {
+			ids = append(ids, i)
+		}
+		c.A = append(g.iv(ids), []int{0, 0, 1, 1, 2, 3, -1}[r.Intn(7)], []int{-1, -1, -5, 0, 1, 2, 100}[r.Intn(7)])
 	case "zrangebylex", "zlexcount", "zremrangebylex":
 		ids := []int{}
 		for i := 1; i <= g.ns; i++ {
@@ -2026,6 +2107,20 @@ func smReadProduct(ty byte, nk, ns int) []*smCmd {
 					add("zrevrange", k, s, e)
 				}
 			}
+			for _, iv := range zivs[:3] {
+				for _, off := range []int{0, 1, 2} {
+					for _, cnt := range []int{-1, 1} {
+						a := append(append([]int{}, iv...), off, cnt)
+						add("zrangebyscorel", k, a...)
+						add("zrevrangebyscorel", k, a...)
+					}
+				}
+			}
+			for _, off := range []int{0, 1, 2} {
+				for _, cnt := range []int{-1, 1} {
+					add("zrangebylexl", k, 0, 2, 0, 2, off, cnt)
+				}
+			}
 			for _, iv := range zivs {
 				add("zrangebyscore", k, iv...)
 				add("zrevrangebyscore", k, iv...)
@@ -2124,6 +2219,7 @@ func smsim(args []string) error {
 	nk := fs.Int("nk", 2, "keys used (<= 4)")
 	ns := fs.Int("ns", 2, "fields/members used (<= 4)")
 	maxRun := fs.Int("maxrun", 40, "graph mode: reset after this many steps")
+	bigIndex := fs.Bool("bigindex", false, "big mode: register a secondary hash index on the table first (other clear / delete paths)")
 	bigN := fs.Int("big", 0, "big-collection scenarios with this many elements (spec/ZBigTrace.tla); no other mode")
 	fs.Parse(args)
 
@@ -2181,6 +2277,13 @@ func smsim(args []string) error {
 	d.tw = d.tws[0]
 
 	if *bigN > 0 {
+		if *bigIndex {
+			table := strings.SplitN(d.pool.keys[0], ":", 2)[0]
+			hi := &common.HsetIndexSchema{Name: "verifidx", IndexField: "verif-indexed-field", ValueType: common.StringV, State: common.ReadyIndex}
+			if err := d.st.AddHsetIndex(table, hi); err != nil {
+				return fmt.Errorf("AddHsetIndex: %v", err)
+			}
+		}
 		d.bigRun(*bigN)
 		summary(map[string]interface{}{"driver": "smsim", "mode": "big", "engine": *eng, "policy": *policy, "seed": *seed, "pool": *poolN,
 			"edges": 0, "edges_covered": 0, "graph_nodes": 0, "stats": d.st8, "big": *bigN, "parts": *parts})
